@@ -331,9 +331,62 @@ def enum_distfile_names(seed):
             "cases": cases, "failures": fails}
 
 
+def enum_option_values(seed):
+    """the values behind the age and size filters: pclean's -m / --modified TIME ("skip files modified since TIME": the bound is now minus the
+    span) and -s / --size SIZE options as their type= parsers read them.  Spans: s, min, h, d, w, m (a month of 30 days), y (a year of 365 days);
+    sizes: B, K, M, G in powers of 1024.  A bound that is too recent / too large lets files through the filters that must be kept."""
+    import argparse
+    from unittest import mock
+    import pkgcore.scripts.pclean as M
+    T0 = 1_700_000_000.0
+    DAY = 24 * 60 * 60
+    spans = {"s": 1, "min": 60, "h": 60 * 60, "d": DAY, "w": 7 * DAY, "m": 30 * DAY, "y": 365 * DAY}
+    sizes = {"B": 1, "K": 1024, "M": 1024 * 1024, "G": 1024 * 1024 * 1024}
+    values = [0, 1, 2, 3, 7, 10, 12, 30, 60, 365, 1000, 86400]
+    cases, fails = 0, []
+
+    def note(model, detail):
+        if len(fails) < 5:
+            fails.append({"model": model, "detail": detail})
+    with mock.patch("time.time", return_value=T0):
+        for u, sec in spans.items():
+            for v in values:
+                cases += 1
+                try:
+                    got = M.parse_time(f"{v}{u}")
+                except Exception as e:
+                    note({"option": "--modified", "value": f"{v}{u}"}, f"parse_time('{v}{u}') raised {type(e).__name__}: {e}")
+                    continue
+                if got != T0 - v * sec:
+                    note({"option": "--modified", "value": f"{v}{u}"}, f"--modified {v}{u}: the bound is {T0 - got:.0f} s before now, {v} x {u} is {v * sec} s: files modified in between are "
+                                                                      f"{'no longer protected' if T0 - got < v * sec else 'protected although older'}")
+        for u, mult in sizes.items():
+            for v in values:
+                cases += 1
+                try:
+                    got = M.parse_size(f"{v}{u}")
+                except Exception as e:
+                    note({"option": "--size", "value": f"{v}{u}"}, f"parse_size('{v}{u}') raised {type(e).__name__}: {e}")
+                    continue
+                if got != v * mult:
+                    note({"option": "--size", "value": f"{v}{u}"}, f"--size {v}{u}: the bound is {got} bytes, {v} x {u} is {v * mult}")
+        for f, bad in ((M.parse_time, ("", "1", "m", "1 m", "-1d", "1.5h", "1mo", "1D", "1dd", "d1", "1s ", "1min2")), (M.parse_size, ("", "1", "K", "1 K", "-1K", "1.5M", "1k", "1KB", "K1", "1T"))):
+            for b in bad:
+                cases += 1
+                try:
+                    r = f(b)
+                    note({"value": b}, f"{f.__name__}({b!r}) accepted a malformed value as {r}")
+                except argparse.ArgumentTypeError:
+                    pass
+                except Exception as e:
+                    note({"value": b}, f"{f.__name__}({b!r}) raised {type(e).__name__} instead of the argument error")
+    return {"name": "C46.option_values.bounded_enumeration", "bound": f"{len(values)} counts x 7 time units (--modified) and x 4 size units (--size) against the documented meaning of each unit, the clock held still; 22 malformed values", "cases": cases, "failures": fails}
+
+
 def tasks():
     return [Task("C46.dist_cleaning", None, [(PC, "_dist_validate_args"), (PC, "_setup_shared_opts"), (PC, "_setup_restrictions")], enumerate=enum_cleaning),
             Task("C46.distfile_names", None, [("src/pkgcore/ebuild/ebuild_src.py", "base.distfiles")], enumerate=enum_distfile_names),
+            Task("C46.option_values", None, [(PC, "parse_time"), (PC, "parse_size")], enumerate=enum_option_values),
             Task("C46._remove", t_remove, [(PC, "_remove")]),
             Task("C46.file_filters", t_file_filters, [(PC, "_setup_file_opts"), (PC, "Filters.run"), (PC, "Filters.append")])]
 
